@@ -541,12 +541,14 @@ func checkRecords(ts *TypeSpec, tree, exp *Node, dec interface{}, where string, 
 				fail(typ+".Records:records-not-stamped", fmt.Sprintf("%s: inner pack %d (%s) has pcode/oid/okind/onode %v, the container has %v", where, i, want.T, h, ch), detail(nil))
 				return false
 			}
+		}
+		if len(got) > 500 && seen[want] && i%997 != 0 && (!zip || i%37 != 0) {
+			continue // long lists repeat a pool of records: compare each distinct record once, plus a stride
+		}
+		seen[want] = true
+		if zip {
 			c.Count("inner_packs_compared", 1)
 		} else {
-			if len(got) > 500 && seen[want] && i%997 != 0 {
-				continue // long lists repeat a pool of records: compare each distinct record once, plus a stride
-			}
-			seen[want] = true
 			c.Count("records_compared", 1)
 		}
 		w := expected(want)
@@ -589,6 +591,9 @@ func checkRecords(ts *TypeSpec, tree, exp *Node, dec interface{}, where string, 
 	}
 	c.Count("record_lists_checked", 1)
 	c.SetAdd("record_list_shapes", fmt.Sprintf("%s/%s/%s", typ, rb.RecMode, sizeClass(len(rb.Recs))))
+	if zip {
+		noteRatio(typ, rb, len(rb.B))
+	}
 	return true
 }
 
@@ -754,6 +759,7 @@ func main() {
 		return
 	}
 	man = m
+	envSetup()    // discovers the environment variables golib reads and unsets them (env.go)
 	ringOn = true // encode()/decode() keep the returned slices and re-verify them (held.go)
 	var names []string
 	registered := 0
@@ -775,6 +781,17 @@ func main() {
 		}
 	}
 	sort.Strings(nestedTypes)
+	nReuse, nEnv := c.N(60, 2000), c.N(40, 1500)
+	if envInitChild() {
+		// started by runEnvInitChild with the variables in the environment from the start: only the
+		// env/<Type> sections (a smaller share), no floors
+		for _, name := range names {
+			ts := man.T(name)
+			c.Cases("env/"+name, nEnv/2, func(i int, r *vlib.Rand) { envCase(ts, i, r) })
+		}
+		c.Finish()
+		return
+	}
 	n := c.N(300, 10000)
 	totalPatterns := 0
 	for _, name := range names {
@@ -784,6 +801,33 @@ func main() {
 		patterns(name, "", 0, &pats)
 		totalPatterns += len(pats)
 		c.Cases("sweep/"+name, len(pats), func(i int, r *vlib.Rand) { sweep(ts, pats[i], i, r) })
+	}
+	reuseTypes := 0 // types with their own Read
+	reuseTotal := int64(0)
+	for _, name := range names {
+		ts := man.T(name)
+		if ts.Class == "pack" || ts.Class == "element" {
+			reuseTypes++
+			nr := nReuse
+			if m := 2 * len(ts.Fields); m > nr {
+				nr = m // every manifest field is aimed at at least twice
+			}
+			reuseTotal += int64(nr)
+			c.Cases("reuse/"+name, nr, func(i int, r *vlib.Rand) { reuseCase(ts, i, r, "") })
+		}
+		if len(envVars) > 0 {
+			c.Cases("env/"+name, nEnv, func(i int, r *vlib.Rand) { envCase(ts, i, r) })
+		}
+	}
+	// compressed containers at deflate's limit (redundancy.go)
+	nExtreme := c.N(16, 200)
+	for _, name := range []string{"ZipPack", "LogSinkZipPack"} {
+		ts := man.T(name)
+		c.Cases("redundancy/"+name, nExtreme, func(i int, r *vlib.Rand) { extremeCase(ts, i, r) })
+	}
+	// variables read at package initialisation: one child process per shard (env.go)
+	if len(envInitReads) > 0 {
+		c.Cases("env-init", c.NShards, func(i int, r *vlib.Rand) { runEnvInitChild(r) })
 	}
 	ringVerify("the end of the round-trip sections")
 	ringOn = false // the cases below hold their results themselves (and run on many goroutines)
@@ -799,7 +843,7 @@ func main() {
 		name := names[int(vlib.Mix(uint64(i))%uint64(len(names)))]
 		heldPackCase(fmt.Sprintf("held-parallel#%d", i), name, names, r, true)
 	})
-	c.Note(fmt.Sprintf("manifest: %d types (%d registered packs, %d of them nested into containers), %d leaf patterns", len(names), registered, len(nestedTypes), totalPatterns))
+	c.Note(fmt.Sprintf("manifest: %d types (%d registered packs, %d of them nested into containers), %d leaf patterns; %d types decoded into used objects; environment variables read by lang/pack and its imports: %v", len(names), registered, len(nestedTypes), totalPatterns, reuseTypes, envVars))
 
 	sh := int64(c.NShards)
 	total := int64(n) * int64(len(names))
@@ -820,6 +864,41 @@ func main() {
 	c.Floor("history_inplace_steps", int64(n)/10/sh, c.Counter("history_inplace_steps"))
 	c.Floor("history_setter_rewrites", int64(n)/10/sh, c.Counter("history_setter_rewrites"))
 	c.Floor("sweep_history_flips", int64(totalPatterns)/10/sh, c.Counter("sweep_history_flips"))
+	// payload redundancy of the compressed containers (redundancy.go): whole-run floors, declared by shard 0
+	whole := func(name string, min int64) {
+		if c.Shard != 0 {
+			min = 0
+		}
+		c.Floor(name, min, c.Counter(name))
+	}
+	zn := int64(n) * 2 // ZipPack + LogSinkZipPack instances
+	whole("zip_ratio_lt_1", zn/100)
+	whole("zip_ratio_1_to_10", zn/50)
+	whole("zip_ratio_10_to_100", zn/300)
+	whole("zip_ratio_100_to_1000", zn/50)
+	whole("zip_ratio_gt_1000", int64(nExtreme)/16)
+	whole("redundancy_extreme_ok", int64(nExtreme)/5)
+	whole("zip_compressed_identical", zn/100)
+	whole("zip_compressed_run", zn/100)
+	whole("zip_compressed_zeros", zn/100)
+	whole("zip_compressed_incompressible", zn/100)
+	// used objects and the environment
+	whole("reuse_cases", reuseTotal/10)
+	whole("reuse_ok", reuseTotal/20)
+	whole("reuse_ok_second-read", reuseTotal/50)
+	whole("reuse_ok_populated", reuseTotal/50)
+	whole("reuse_ok_second_pack_shorter", reuseTotal/100)
+	whole("reuse_ok_second_pack_longer", reuseTotal/100)
+	whole("reuse_kept_contents_rewalked", reuseTotal/20)
+	whole("max_env_variables_found", 1)
+	whole("env_cases", int64(nEnv)*int64(len(names))/10)
+	whole("env_roundtrips_ok", int64(nEnv)*int64(len(names))/20)
+	whole("env_cases_on_types_the_environment_reaches", int64(nEnv)/10)
+	whole("env_cases_with_a_derived_field_zero", int64(nEnv)/10)
+	if len(envInitReads) > 0 {
+		whole("env_init_child_processes", int64(c.NShards)/2)
+		whole("env_init_roundtrips_ok", int64(nEnv)*int64(len(names))/40)
+	}
 	// held results and live objects (held.go)
 	nh := int64(nHeld)*int64(len(names)) + int64(nHeldPar)
 	c.Floor("held_ring_results", total/5/sh, c.Counter("held_ring_results"))
